@@ -75,7 +75,7 @@ def Buf.prune (b : Buf) (fin : Nat) : Buf :=
 structure State where
   buf : Buf
   head : Option Head     -- the stored L1 head (db bucket L1Height); `none` = key absent
-  deriving Repr, Inhabited
+  deriving DecidableEq, Repr, Inhabited
 
 def State.init (h : Option Head) : State := ⟨[], h⟩
 
@@ -92,6 +92,27 @@ def setL1Head (guard : Bool) (s : State) (fin : Nat) : State × Option Head :=
   | some c =>
     if skipCandidate guard s.head c then (⟨s.buf.prune fin, s.head⟩, none)
     else (⟨s.buf.prune fin, some c.toHead⟩, some c.toHead)
+
+/-- A failing database under `setL1Head`: the read of the stored head (the guard) or the write. -/
+inductive DbFault where
+  | readErr | writeErr
+  deriving DecidableEq, Repr, Inhabited
+
+/-- `setL1Head` when the database fails. The entries at or below `fin` have already been deleted
+when the stored head is read; `Blockchain.SetL1Head` sends on the feed BEFORE it writes. Components:
+new state, value sent on the L1-head feed, whether `Run` terminates with the error. The listener
+is not called on either path. -/
+def setL1HeadFault (g : Bool) (s : State) (fin : Nat) (f : DbFault) : State × Option Head × Bool :=
+  match pickMax fin s.buf with
+  | none => (⟨s.buf.prune fin, s.head⟩, none, false)      -- no database access at all
+  | some c =>
+    match f with
+    | .readErr =>
+      if g then (⟨s.buf.prune fin, s.head⟩, none, true)
+      else (⟨s.buf.prune fin, some c.toHead⟩, some c.toHead, false)   -- no read without the guard
+    | .writeErr =>
+      if skipCandidate g s.head c then (⟨s.buf.prune fin, s.head⟩, none, false)
+      else (⟨s.buf.prune fin, s.head⟩, some c.toHead, true)
 
 /-- Inputs of the client's event loop. -/
 inductive Ev where
